@@ -470,9 +470,18 @@ func c23Run(x *c23Ctx, t *testing.T, cs c23Case) { //nolint:cyclop,gocognit,main
 		}
 		l := localByID(sec.StreamID, sec.TrackID)
 		if l == nil {
-			// the sender's description names a track the sender does not have: outside this
-			// property's oracle (nothing to compare the media with)
-			vPairFatalf("sender's description announces msid %q %q which is no local track", sec.StreamID, sec.TrackID)
+			// the sender's description names an msid that is no local track (not this oracle's
+			// business: the remote track is compared with the DESCRIPTION); to know which
+			// payloads belong here fall back to the position of the section
+			for i := range sdpT {
+				if &sdpT[i] == sec && i < len(locals) {
+					l = locals[i]
+				}
+			}
+			if l == nil {
+				vPairFatalf("cannot relate section mid=%s of the sender's description (msid %q %q) to a local track", sec.Mid, sec.StreamID, sec.TrackID)
+			}
+			c.Outcome("senders-sdp-msid-names-no-local-track")
 		}
 		if tr.ID() != sec.TrackID {
 			viol(fmt.Sprintf("msid|track-id|kind=%s|offerer=%s", sec.Kind, offerer), fmt.Sprintf("TrackRemote.ID()=%q, sender's a=msid track id %q", tr.ID(), sec.TrackID), nil)
@@ -611,11 +620,14 @@ func c23Run(x *c23Ctx, t *testing.T, cs c23Case) { //nolint:cyclop,gocognit,main
 	omu.Lock()
 	sdpT, answer = c23ScanSender(senderSDP), r.Answer.SDP
 	omu.Unlock()
-	for _, l := range locals {
+	for li, l := range locals {
 		found := false
-		for _, s := range sdpT {
-			if s.TrackID == l.track.ID() && s.StreamID == l.track.StreamID() && len(s.Primaries) >= 1 {
+		mid := ""
+		for si, s := range sdpT {
+			byMsid := s.TrackID == l.track.ID() && s.StreamID == l.track.StreamID()
+			if (byMsid || (localByID(s.StreamID, s.TrackID) == nil && si == li)) && len(s.Primaries) >= 1 {
 				found = true
+				mid = s.Mid
 				if cs.RTX && l.codec.Kind == RTPCodecTypeVideo && len(s.Repairs) > 0 {
 					if x.once("rtxssrc|" + cs.key()) {
 						c.Add("cases_with_rtx_ssrc_announced", 1)
@@ -626,7 +638,7 @@ func c23Run(x *c23Ctx, t *testing.T, cs c23Case) { //nolint:cyclop,gocognit,main
 		if !found {
 			vPairFatalf("the sender's description does not announce an SSRC for local track %s (%s):\n%s", l.track.ID(), cs.key(), senderSDP)
 		}
-		if len(c23AnswerPT(r.Answer.SDP, c23MidOf(sdpT, l), l.codec.Name)) == 0 {
+		if len(c23AnswerPT(r.Answer.SDP, mid, l.codec.Name)) == 0 {
 			vPairFatalf("the answer does not list codec %s (%s):\n%s", l.codec.Name, cs.key(), r.Answer.SDP)
 		}
 	}
@@ -725,16 +737,6 @@ func c23Run(x *c23Ctx, t *testing.T, cs c23Case) { //nolint:cyclop,gocognit,main
 	c.Outcome(fmt.Sprintf("delivered-all|tracks=%d", len(locals)))
 	p.Close()
 	readers.Wait()
-}
-
-func c23MidOf(sdpT []c23SDPTrack, l *c23Local) string {
-	for _, s := range sdpT {
-		if s.TrackID == l.track.ID() && s.StreamID == l.track.StreamID() {
-			return s.Mid
-		}
-	}
-
-	return ""
 }
 
 func TestVerifC23(t *testing.T) {
